@@ -71,6 +71,9 @@ def check_weaver(ctx, wm: WeaverModel):
         ok = isinstance(c, Term) and c.head == 'call:' + SMOOTH and same(c.kw('x'), wm.fields['x']) and same(c.kw('y'), wm.fields['y']) \
             and veq(c.kw('s'), mf.params.get('s'))
     ctx.check(ok, 'C16.2', 'smooth: y <- spline_smooth(self.x, self.y, s=s)(self.x)', show(v, 300), mf.fi.loc(), mf.fi.qualname, 'smooth-value')
+    inplace = [e for e in mf.ev.events + tf.ev.events if e.kind == 'store']
+    ctx.check(not inplace, 'C16.2', 'smooth / to_function write no sample in place (the smoothed series is exactly the spline evaluated at self.x)',
+              f"in-place stores: {[(show(e.data.get('base'), 40), e.loc()) for e in inplace[:3]]}", (inplace[0].loc() if inplace else mf.fi.loc()), mf.fi.qualname, 'smooth-inplace')
     ctx.check(not unused_params(mf), 'C16.2', 'smooth: s is not ignored', f"unused {unused_params(mf)}", mf.fi.loc(), mf.fi.qualname, 'smooth-dropped')
     # to_function
     ctx.check(not tf.stores, 'C16.2', 'to_function stores nothing', f"stores {tf.stored_fields()}", tf.fi.loc(), tf.fi.qualname, 'tf-frame')
